@@ -137,6 +137,10 @@ def make_spec(prog, rng, backend, lineno, alloc="", extra_options=None, fini_ext
         bol = "(int) yyatbol(yyscanner)"
     if not bol_obs:
         bol = "-1"
+    if backend == 'r' and len(prog['rules']) % 2 == 1:
+        # every other reentrant C program creates its scanner through yylex_init_extra (the allocation of the scanner object is then
+        # made with the user's value already in place; the c99 back end has the function only with %option extra-type)
+        init = init.replace("yylex_init(&s)", "yylex_init_extra(0, &s)")
     top = ("#define _GNU_SOURCE 1\n" if backend == 'c99' else "") + TOP % {'alloc': alloc}
     tokm = "ev_tok(%%d, %s, %s, %s, %s)" % (text, leng, ln, bol)
     if backend != 'c99':
